@@ -892,6 +892,9 @@ func (w *world) scan(evs []abci.Event, meta *txMeta, T time.Time, h int64) {
 				}
 				if s.kind == "inc" {
 					w.class("incoming-signing-completed")
+					if w.m.tr == nil {
+						w.class("incoming-signing-completed-after-the-transition-ended")
+					}
 					for _, a := range s.assigned {
 						w.incPaidCheck[a] = true
 					}
